@@ -112,6 +112,23 @@ def run(ctx):
                     'contexts': [{'zeros': x['zeros'], 'len': x['len']} for x in e['ctx']], 'key': bytes(e['key']).hex() if 256 not in e['key'] else 'raised'})
     rej = ctx.judge('Trace_C12', ev, chunk=400)
     ctx.traces += len(ev) - len(rej)
+    bad = {i for i, _ in rej}
+    good = [e for i, e in enumerate(ev) if i not in bad and len(e['pass']) < 100][::11]
+
+    def c_key(e):
+        e['key'][0] ^= 1
+        return e
+
+    def c_len(e):
+        e['ctx'][0]['len'] += 1
+        return e
+
+    def c_zeros(e):
+        if len(e['ctx']) < 2:
+            return None
+        e['ctx'][1]['zeros'] = 0
+        return e
+    ctx.selftest(lambda b: ctx.judge('Trace_C12', b), good, [('derived key octet', c_key), ('stream length of context 0', c_len), ('preload zeros of context 1', c_zeros)], 'C12')
     ctx.extra['derivations'] = len(ev)
     ctx.extra['multi_context_derivations'] = sum(1 for e in ev if len(e['ctx']) > 1)
     for idx, clause in rej:
